@@ -18,7 +18,7 @@ TECHNIQUE = 'exhaustive enumeration of a small name language through the real co
 RULE = ('(a) all names up to the bound; (b) all 7,225 pairs in one file; (c) random unicode names; non-trivial = name containing a quote or a '
         'slash or empty; distinct = the name pair')
 ASSUMPTIONS = ['names contain no lone surrogates (not encodable as UTF-8)']
-REQUIRED = ['reused_writer_objects', 'implied_group_lookups', 'codec_roundtrips', 'injectivity_pairs', 'end_to_end_lookups', 'unicode_names', 'lazy_lookups']
+REQUIRED = ['memmap_files', 'reused_writer_objects', 'implied_group_lookups', 'codec_roundtrips', 'injectivity_pairs', 'end_to_end_lookups', 'unicode_names', 'lazy_lookups']
 EXHAUSTIVE = {'quick': False, 'thorough': False}
 ALPHA = ["'", '/', ' ', 'a']
 
@@ -132,8 +132,19 @@ def write_read(ctx, pairs, label, reuse=False):
 
 def check_identity(ctx, data, pairs, ids, label, group_props=True):
     from nptdms import TdmsFile
-    for mode in ('eager', 'lazy'):
-        tf = (TdmsFile.read if mode == 'eager' else TdmsFile.open)(io.BytesIO(data))
+    modes = ['eager', 'lazy']
+    if len(pairs) <= 600:
+        modes += ['eager-memmap', 'lazy-memmap']
+    for mode in modes:
+        try:
+            mm = util.TempDir('c16mm') if mode.endswith('memmap') else None
+            kw = {'memmap_dir': mm.__enter__()} if mm else {}
+            if mm:
+                ctx.count('memmap_files')
+            tf = (TdmsFile.read if mode.startswith('eager') else TdmsFile.open)(io.BytesIO(data), **kw)
+        except Exception as ex:
+            ctx.violation('%s/open-raises/%s/%s' % (label, mode, util.exc_key(ex)), {'exc': util.exc_detail(ex), 'pairs': pairs[:5]})
+            continue
         try:
             got_groups = [g.name for g in tf.groups()]
             if sorted(got_groups) != sorted({g for g, _ in pairs}):
@@ -143,14 +154,18 @@ def check_identity(ctx, data, pairs, ids, label, group_props=True):
                 ctx.violation('%s/channels-merged-or-lost' % label, {'mode': mode, 'got': nchan, 'want': len(pairs)})
             for (g, c), i in ids.items():
                 ctx.count('end_to_end_lookups')
-                if mode == 'lazy':
+                if mode.startswith('lazy'):
                     ctx.count('lazy_lookups')
                 try:
                     ch = tf[g][c]
                 except KeyError:
                     ctx.violation('%s/lookup-fails' % label, {'mode': mode, 'pair': (g, c)})
                     continue
-                v = ch[:]
+                try:
+                    v = ch[:]
+                except Exception as ex:
+                    ctx.violation('%s/channel-read-raises/%s/%s' % (label, mode, util.exc_key(ex)), {'pair': (g, c), 'exc': util.exc_detail(ex)})
+                    continue
                 if len(v) != 1 or int(v[0]) != i or ch.properties.get('id') != i:
                     ctx.violation('%s/lookup-returns-another-channel' % label, {'mode': mode, 'pair': (g, c), 'id': i, 'got': v.tolist(), 'prop': ch.properties.get('id')})
                 if ch.name != c or ch.group_name != g or ch.path != M.qpath(g, c):
@@ -160,6 +175,8 @@ def check_identity(ctx, data, pairs, ids, label, group_props=True):
                     ctx.violation('%s/group-identity' % label, {'mode': mode, 'group': g, 'name': grp.name, 'path': grp.path, 'prop': grp.properties.get('gname')})
         finally:
             tf.close()
+            if mm:
+                mm.__exit__()
 
 
 def e2e_all(case, ctx):
